@@ -58,6 +58,12 @@ type monitor struct {
 	lastEv    map[int]string
 }
 
+// probesComplete: all four probed functions (runGeneration, writeGeneration, PurgeGeneration, GetGeneration) exist
+// under these names in the current tree. If one was renamed or inlined the event stream is partial and the protocol
+// monitors M1-M4 and the model conformance would misread it; they are then switched off (counted in the evidence) and
+// the check rests on output equality, block-written-once, deadlock and race detection.
+func probesComplete() bool { return vrt.ProbeCount == "" || vrt.ProbeCount == "4" }
+
 func newMonitor(G int) *monitor {
 	return &monitor{G: G, written: map[int]bool{}, writing: map[int]int{}, linksDone: map[int]bool{}, purged: map[int]bool{}, lastRun: -1, lastEv: map[int]string{}}
 }
@@ -158,10 +164,12 @@ func (g *graph) harness(keepAbstract *[][]string) *sched.Harness {
 		Observe: func(r vrt.Result) sched.Outcome {
 			// the monitors run over the recorded event log, on the harness goroutine (never inside a logical thread)
 			mon = newMonitor(g.G)
-			for _, e := range r.Events {
-				mon.event(e)
+			if probesComplete() {
+				for _, e := range r.Events {
+					mon.event(e)
+				}
+				mon.end(g.WithOutput)
 			}
-			mon.end(g.WithOutput)
 			if keepAbstract != nil {
 				*keepAbstract = append(*keepAbstract, append([]string{}, mon.abstract...))
 			}
@@ -262,6 +270,10 @@ func runGraphX(g *graph, bound int, explore bool, shard int, r *vf.Rec, traces *
 	r.Count("horizon_hits", int64(st.HorizonHits))
 	if !st.Complete {
 		r.Count("explorations_cut_by_cap_or_horizon", 1)
+	}
+	if !probesComplete() {
+		r.Count("protocol_monitors_and_model_conformance_skipped_probe_functions_renamed", 1)
+		traces = nil
 	}
 	if traces != nil {
 		// conformance, impl within model: every recorded abstract trace must be a path of TLC's state graph
